@@ -49,7 +49,7 @@ ASSUMPTIONS = [
     "K-orthogonal class = axis-aligned CartGrid / TensorGrid with diagonal tensor (scalar cell-wise heterogeneity allowed)",
     "MPFA agreement is checked for dim >= 2 only (in 1-d pp.Mpfa delegates to pp.Tpfa)",
 ]
-REQUIRED = {"reuse": 0.15, "reuse-moved-geometry": 0.08, "reuse-changed-tensor": 0.05, "reuse-changed-bc": 0.05,
+REQUIRED = {"scaled-small": 0.08, "scaled-large": 0.05, "graded": 0.02, "K-tiny": 0.1, "K-huge": 0.03, "reuse": 0.15, "reuse-moved-geometry": 0.08, "reuse-changed-tensor": 0.05, "reuse-changed-bc": 0.05,
             "reuse-same-data": 0.05, "general": 0.3, "korth": 0.3, "dim1": 0.02, "dim2": 0.2, "dim3": 0.2, "heterogeneous": 0.2, "bc-mixed": 0.3,
             "mpfa-compared": 0.2, "linear-exact": 0.1, "kind-poly": 0.01, "kind-tri": 0.015, "kind-tet": 0.015}
 
@@ -62,19 +62,20 @@ def _spec(draw, tier):
         fam = draw(st.sampled_from(["cart", "tensor", "tri", "tet", "poly", "polyx"] + (["gmsh"] if tier == "thorough" else [])))
         dims = {"cart": (1, 2, 3), "tensor": (1, 2, 3), "tri": (2,), "poly": (2,), "tet": (3,), "polyx": (3,), "gmsh": (2, 3)}[fam]
         grid = draw(grid_spec(dims=dims, kinds=(fam,), max_n3=2, max_n=4, gmsh=(fam == "gmsh")))
-        K = draw(fv.spd_spec(het=True))
+        K = draw(fv.spd_spec(het=True, mags=True))
     else:
         grid = draw(grid_spec(dims=(1, 2, 2, 2, 3, 3, 3), kinds=("cart", "tensor"), perturb=False, rigid=False,
                               affine=False, max_n3=2, max_n=4))
-        K = draw(fv.spd_spec(kinds=("diag", "diag", "iso"), het=True))
+        K = draw(fv.spd_spec(kinds=("diag", "diag", "iso"), het=True, mags=True))
+    grid = draw(fv.with_length_scale(grid))  # unit factors 1e-6..1e4, graded tensor grids
     # reuse class: one Tpfa object discretises twice, the inputs are edited in place in between (see gen/fv.py)
     reuse = None
     if draw(st.integers(0, 2)) == 0:
         kinds = ("iso", "diag", "full") if mode == "general" else ("diag", "diag", "iso")
-        reuse = draw(fv.reuse_spec(grid, tensor_kinds=kinds, het=True))
+        reuse = draw(fv.reuse_spec(grid, tensor_kinds=kinds, het=True, mags=True))
         if mode == "korth" and reuse["move"] == "scale" and draw(st.booleans()):
             reuse["move"] = "respace"
-    return {"mode": mode, "grid": grid, "K": K, "bc": draw(fv.bc_spec()), "field": draw(fv.field_spec()), "reuse": reuse}
+    return {"mode": mode, "grid": grid, "K": K, "bc": draw(fv.bc_spec()), "field": draw(fv.field_spec(length=grid.get("scale") or 1.0)), "reuse": reuse}
 
 
 def strategy(tier):
@@ -139,7 +140,7 @@ def check(spec):
         M, _ = fv.discretize_flow(g, K, bc, "tpfa")
     fs = spec["field"]
     flux, bflux = M["flux"], M["bound_flux"]
-    labels += ["K-" + ts["kind"], bc_label(is_dir, g)]
+    labels += ["K-" + ts["kind"], bc_label(is_dir, g)] + fv.length_labels(spec["grid"]) + fv.tensor_labels(ts)
     het = bool(ts.get("het_amp"))
     if het:
         labels.append("heterogeneous")
@@ -175,11 +176,12 @@ def check(spec):
         if g.dim >= 2:
             Mm, _ = fv.discretize_flow(g, K, bc, "mpfa")
             labels.append("mpfa-compared")
+            cf = fv.conditioning_factor(spec["grid"])  # > 1 only for graded grids (MPFA local systems)
             s1 = max(scale, float(abs(Mm["flux"]).max()))
-            require_close(flux.toarray(), Mm["flux"].toarray(), "mpfa-flux", rtol=1e-10, atol=0.0, scale=s1,
+            require_close(flux.toarray(), Mm["flux"].toarray(), "mpfa-flux", rtol=1e-10 * cf, atol=0.0, scale=s1,
                           what="Tpfa flux vs Mpfa flux")
             s2 = max(float(abs(bflux).max()), float(abs(Mm["bound_flux"]).max()), 1e-300)
-            require_close(bflux.toarray(), Mm["bound_flux"].toarray(), "mpfa-bound-flux", rtol=1e-10, atol=0.0, scale=s2,
+            require_close(bflux.toarray(), Mm["bound_flux"].toarray(), "mpfa-bound-flux", rtol=1e-10 * cf, atol=0.0, scale=s2,
                           what="Tpfa bound_flux vs Mpfa bound_flux")
         if not het:
             labels.append("linear-exact")
